@@ -222,10 +222,67 @@ def rule_gs(ck, units):
                   '' if ok else 'row kernels differ (serial %s fragments, parallel %s fragments)' % (ks[1] if ks else '?', kp[1] if kp else '?'))
 
 
+def strip_types(t):
+    if isinstance(t, list):
+        return [strip_types(x) for x in t]
+    if isinstance(t, dict):
+        return {k: strip_types(v) for k, v in t.items() if k not in ('t', 'ct', 'rt', 'mr', 'cm')}
+    return t
+
+
+def rule_chebyshev_bounds(ck, units):
+    import json
+    import c02
+    ck.rule('cheb-scale-consistent', 'chebyshev: the spectral radius is estimated for the operator the iteration runs on - spectral_radius<true> exactly under prm.scale, <false> otherwise', 1)
+    ck.rule('radius-siblings', 'the diagonal scaling statements of the serial and the distributed spectral-radius kernels (Gershgorin and power branch) are the same code', 1)
+    done = set()
+    for u in units.values():
+        for f in u.funcs:
+            if f.cls == 'amgcl::relaxation::chebyshev' and f.j.get('ctor') and 'cheb' not in done:
+                calls = [c for c in f.calls('amgcl::backend::spectral_radius')]
+                if not calls:
+                    continue
+                done.add('cheb')
+                dets = []
+                for c in calls:
+                    g = u.by_id.get(c.get('fd'))
+                    full = g.full if g is not None else ''
+                    scaled = 'spectral_radius<true' in full
+                    pol = None
+                    cur = c
+                    for a in f.ancestors(c):
+                        if a['k'] == 'if' and show(a['c']) in ('prm.scale', 'this->prm.scale'):
+                            pol = a.get('t') is not None and any(x is cur for x in walk(a['t']))
+                        cur = a
+                    if pol is None:
+                        dets.append('spectral_radius<%s> at %s is called irrespective of prm.scale' % ('true' if scaled else 'false', f.where(c)))
+                    elif pol != scaled:
+                        dets.append('spectral_radius<%s> at %s is used on the prm.scale == %s path' % ('true' if scaled else 'false', f.where(c), 'true' if pol else 'false'))
+                ck.ob('cheb-scale-consistent', 'amgcl::relaxation::chebyshev::ctor', f.where(), not dets, '; '.join(dets[:2]))
+        ser = [f for f in u.funcs if f.q == 'amgcl::backend::spectral_radius' and f.params and 'distributed_matrix' not in u.type(f.decl(f.params[0]).get('ct')) and 'spectral_radius<true' in f.full]
+        dis = [f for f in u.funcs if f.q == 'amgcl::backend::spectral_radius' and f.params and 'distributed_matrix' in u.type(f.decl(f.params[0]).get('ct')) and 'spectral_radius<true' in f.full]
+        if ser and dis and 'sib' not in done:
+            done.add('sib')
+
+            def scale_stmts(f):
+                out = set()
+                for n in f.nodes.values():
+                    # `if (scale)`: the template argument is substituted, the condition is the literal true here
+                    c = unwrap(n['c']) if n['k'] == 'if' else None
+                    if c is not None and c['k'] == 'lit' and c.get('t') == 'bool' and n.get('t') is not None and any(x['k'] == 'ref' and x['n'] == 'dia' for x in walk(n['t'])):
+                        pm = {}
+                        out.add(json.dumps(strip_types(c02.norm_tree(f, n['t'], pm)), sort_keys=True))
+                return out
+            a, b = scale_stmts(ser[0]), scale_stmts(dis[0])
+            ok = bool(a) and a == b
+            ck.ob('radius-siblings', 'amgcl::backend::spectral_radius|serial-vs-distributed', ser[0].where(), ok,
+                  '' if ok else 'the statements guarded by `if (scale)` differ between the serial (%s) and the distributed (%s) spectral radius estimate' % (ser[0].where(), dis[0].where()))
+
+
 def main(tier):
     ck = Check('C06', tier, 'C06 (clauses): every relaxation sweep has correction form, so the exact solution is a fixed point; serial and parallel Gauss-Seidel kernels agree.')
     T = os.path.join(ir.VERIF, 'tus')
-    names = ['rt_builtin'] if tier == 'quick' else ['rt_builtin', 'vt_float', 'vt_complex', 'vt_block', 'be_block_crs', 'be_eigen', 'mpi_rt']
+    names = ['rt_builtin', 'mpi_rt'] if tier == 'quick' else ['rt_builtin', 'vt_float', 'vt_complex', 'vt_block', 'be_block_crs', 'be_eigen', 'mpi_rt']
     specs = [dict(name=n, src=os.path.join(T, n + '.cpp'), mpi=(n == 'mpi_rt')) for n in names]
     units = ir.run_units(specs, 'C06')
     ck.add_units(units, specs)
@@ -246,6 +303,7 @@ def main(tier):
     if missing:
         ck.brk('relaxation classes not instantiated: %s' % missing)
     rule_gs(ck, units)
+    rule_chebyshev_bounds(ck, units)
     ck.assumptions += ['constant operators of the object (diagonals, approximate inverses, triangular factors) are linear maps: zero in, zero out',
                        'that M is the documented splitting (ILU pattern/values, SPAI least squares, Chebyshev bounds) is numerical and not decided']
     return ck.finish()
